@@ -98,6 +98,17 @@ var _ net.Error = (*timeoutErr)(nil)
 type Frame struct {
 	Type int
 	Data []byte
+	at   time.Duration // virtual time from which the frame can be read (network latency)
+}
+
+// SetLatency makes every frame written from now on readable only d later (per execution).
+func SetLatency(d time.Duration) {
+	simrt.Local("fakews.latency", func() any { return new(time.Duration) })
+	*(simrt.Local("fakews.latency", nil).(*time.Duration)) = d
+}
+
+func latency() time.Duration {
+	return *(simrt.Local("fakews.latency", func() any { return new(time.Duration) }).(*time.Duration))
 }
 
 func (f Frame) String() string {
@@ -228,7 +239,7 @@ func (c *Conn) Close() error {
 }
 
 func (c *Conn) readable() bool {
-	return len(c.inbox) > 0 || c.closed || c.peerGone || c.linkDown || c.readErr != nil ||
+	return (len(c.inbox) > 0 && c.inbox[0].at <= vnow()) || c.closed || (c.peerGone && len(c.inbox) == 0) || c.linkDown || c.readErr != nil ||
 		(c.hasRD && vnow() >= c.readDeadline)
 }
 
@@ -254,7 +265,7 @@ func (c *Conn) ReadMessage() (int, []byte, error) {
 		case c.linkDown:
 			c.readErr = &net.OpError{Op: "read", Net: "fake", Err: errors.New("connection reset by peer")}
 			return 0, nil, c.readErr
-		case len(c.inbox) > 0:
+		case len(c.inbox) > 0 && c.inbox[0].at <= vnow():
 			f := c.inbox[0]
 			c.inbox = c.inbox[1:]
 			switch f.Type {
@@ -267,7 +278,7 @@ func (c *Conn) ReadMessage() (int, []byte, error) {
 						return 0, nil, err
 					}
 				} else {
-					_ = c.writeFrame(Frame{PongMessage, f.Data}, true)
+					_ = c.writeFrame(Frame{Type: PongMessage, Data: f.Data}, true)
 				}
 			case PongMessage:
 				if c.pongHandler != nil {
@@ -288,7 +299,7 @@ func (c *Conn) ReadMessage() (int, []byte, error) {
 						return 0, nil, err
 					}
 				} else {
-					_ = c.writeFrame(Frame{CloseMessage, FormatCloseMessage(code, "")}, true)
+					_ = c.writeFrame(Frame{Type: CloseMessage, Data: FormatCloseMessage(code, "")}, true)
 				}
 				c.readErr = &CloseError{Code: code, Text: text}
 				return 0, nil, c.readErr
@@ -308,11 +319,11 @@ func (c *Conn) ReadMessage() (int, []byte, error) {
 
 // NextReader is not used by ship-go; provided for completeness of the common API.
 func (c *Conn) WriteControl(messageType int, data []byte, deadline time.Time) error {
-	return c.writeFrame(Frame{messageType, append([]byte(nil), data...)}, true)
+	return c.writeFrame(Frame{Type: messageType, Data: append([]byte(nil), data...)}, true)
 }
 
 func (c *Conn) WriteMessage(messageType int, data []byte) error {
-	return c.writeFrame(Frame{messageType, append([]byte(nil), data...)}, messageType >= CloseMessage)
+	return c.writeFrame(Frame{Type: messageType, Data: append([]byte(nil), data...)}, messageType >= CloseMessage)
 }
 
 func (c *Conn) WriteJSON(v any) error { return errors.New("fakews: WriteJSON not modelled") }
@@ -357,6 +368,11 @@ func (c *Conn) writeFrame(f Frame, control bool) error {
 	}
 	c.Sent = append(c.Sent, f)
 	if !c.peer.closed {
+		if l := latency(); l > 0 {
+			f.at = vnow() + l
+			// a timer whose only effect is to let virtual time reach the arrival time
+			simrt.NewTimer(l, 0, "ws-latency", func() {})
+		}
 		c.peer.inbox = append(c.peer.inbox, f)
 	}
 	return nil
